@@ -280,9 +280,12 @@ def psfandgridconv(xi1, eta1, lat, lon, cm, conf_lat, ellipsoid=grs80, prj=utm):
     grid_conv = degrees(atan(abs(q / p))
                         + atan(abs(tan(conf_lat) * tan(long_diff))
                                / sqrt(1 + tan(conf_lat)**2)))
-    if cm > lon and lat < 0:
+    # side of the central meridian from the longitude difference taken the
+    # short way round (an explicit zone may lie across the +/-180 meridian)
+    dlon = (lon - cm + 180) % 360 - 180
+    if dlon < 0 and lat < 0:
         grid_conv = -grid_conv
-    elif cm < lon and lat > 0:
+    elif dlon > 0 and lat > 0:
         grid_conv = -grid_conv
 
     return psf, grid_conv
